@@ -63,61 +63,43 @@ def readValues (g : G) (bytes : List Char) (comment : Char) : Option (List Ev) :
   | .ok [] evs => some evs
   | _ => none
 
+
+/-- `importCSV(Data<T>&, fn, …, titleLines)`: `stream.ignore(max, '\n')` per title line, then the
+rest of the file byte for byte (`istream_iterator<char>` with `skipws` unset) -/
+def dropTitleLines : Nat → List Char → List Char
+  | 0, s => s
+  | _+1, [] => []
+  | k+1, c :: t => if c == '\n' then dropTitleLines k t else dropTitleLines (k+1) t
+
+/-! ### the importers from BYTES: reader, then post-parse logic -/
+
+/-- `csvStringToData(Data<RealVector>&, contents, separator, comment, maximumBatchSize)` -/
+def importRowsBytes (bytes : List Char) (sep comment : Char) (maxB : Nat) : Outcome Val :=
+  match readRows bytes sep comment with
+  | none => .error
+  | some rows => importRows rows maxB
+
+/-- `csvStringToData(LabeledData<RealVector, RealVector>&, contents, lp, numberOfOutputs, …)` -/
+def importRegrBytes (bytes : List Char) (labelFirst : Bool) (numOut : Nat) (sep comment : Char) (maxB : Nat) : Outcome Val :=
+  match readRows bytes sep comment with
+  | none => .error
+  | some rows => importRegr rows labelFirst numOut maxB
+
+/-- `csvStringToData(LabeledData<RealVector, unsigned int>&, contents, lp, …)` -/
+def importClassBytes (bytes : List Char) (labelFirst : Bool) (sep comment : Char) (maxB : Nat) : Outcome Val :=
+  match (if labelFirst then readPointsFirst bytes sep comment else readPointsLast bytes sep comment) with
+  | none => .error
+  | some pts => importClass pts maxB
+
 end SharkVerif.Import.Csv
 
-/-! ### exporters as token printers (`detail::exportCSV_labeled`, `exportSparseData`) -/
-namespace SharkVerif.Import.Export
+namespace SharkVerif.Import.Svm
 
-def natDigits (n : Nat) : List Char := (toString n).toList
+/-- `importSparseData(dataset, stream, highestIndex, batchSize)`: record reader
+(`importSparseDataReader`), then the importer logic -/
+def importBytes (cfg : Cfg) (bytes : List Char) : Outcome Val :=
+  match svmRecords bytes with
+  | none => .error
+  | some recs => importRepaired Val.zero Val.toInt32 cfg (recs.map fun r => { label := r.1, feats := r.2 })
 
-/-- exact decimal rendering of a dyadic value `± m·2^e` (what `operator<<` prints, up to
-the notation: the C++ uses scientific notation with 10 resp. 6 digits, exact for the
-values the round-trip generator uses) -/
-def showVal : Val → List Char
-  | .fin neg m e =>
-    let sign := if neg && m != 0 then ['-'] else []
-    if e ≥ 0 then sign ++ natDigits (m * 2 ^ e.toNat)
-    else
-      let k := (-e).toNat
-      let n := m * 5 ^ k
-      let ip := n / 10 ^ k
-      let fp := natDigits (n % 10 ^ k)
-      sign ++ natDigits ip ++ ['.'] ++ List.replicate (k - fp.length) '0' ++ fp
-  | .inf neg => if neg then "-inf".toList else "inf".toList
-  | .nan => "nan".toList
-
-def joinWith (sep : List Char) : List (List Char) → List Char
-  | [] => []
-  | [a] => a
-  | a :: t => a ++ sep ++ joinWith sep t
-
-/-- `exportCSV(LabeledData<RealVector, unsigned int>, …, lp, separator)` -/
-def csvClass (pts : List (Nat × List Val)) (labelFirst : Bool) (sep : Char) : List Char :=
-  pts.flatMap fun p =>
-    let cells := p.2.map showVal
-    let all := if labelFirst then natDigits p.1 :: cells else cells ++ [natDigits p.1]
-    joinWith [sep] all ++ ['\n']
-
-/-- `exportCSV(LabeledData<RealVector, RealVector>, …, lp, separator)` -/
-def csvRegr (pts : List (List Val × List Val)) (labelFirst : Bool) (sep : Char) : List Char :=
-  pts.flatMap fun p =>
-    let ins := p.1.map showVal
-    let outs := p.2.map showVal
-    joinWith [sep] (if labelFirst then outs ++ ins else ins ++ outs) ++ ['\n']
-
-def svmFeats (vs : List Val) : List Char :=
-  (List.zip (List.range vs.length) vs).flatMap fun q => [' '] ++ natDigits (q.1 + 1) ++ [':'] ++ showVal q.2
-
-/-- `exportSparseData(LabeledData<InputType, unsigned int>)` with the default `oneMinusOne = true` -/
-def svmClass (pts : List (Nat × List Val)) : List Char :=
-  let classes := numberOfClasses (pts.map (·.1))
-  pts.flatMap fun p =>
-    let lab : List Char :=
-      if classes == 2 then (if p.1 == 0 then "-1".toList else natDigits (2 * p.1 - 1)) else natDigits (p.1 + 1)
-    lab ++ [' '] ++ svmFeats p.2 ++ ['\n']
-
-/-- `exportSparseData(LabeledData<InputType, RealVector>)` -/
-def svmRegr (pts : List (Val × List Val)) : List Char :=
-  pts.flatMap fun p => showVal p.1 ++ svmFeats p.2 ++ ['\n']
-
-end SharkVerif.Import.Export
+end SharkVerif.Import.Svm
